@@ -536,6 +536,17 @@ theorem first_response_decides (s : State) (tok code : Nat) (seq : Option Nat) (
       (if e.st.waiting then s.sigs ++ [⟨e.id, code, seq.isNone⟩] else s.sigs) := by
   simp [step, h]
 
+/-! Non-vacuity: one observation (token 5) is registered and confirmed by its first notification (seq 10); seq 12 one
+    second later is delivered; the late seq 11 and the repeated seq 12 are withheld; a second registration with the same
+    token is refused and leaves the first alone; after `Cancel` a further notification goes to the default handler.
+    The three judges accept this history (they are what `delivered_fresh`, `silent_after_cancel`, `own_token_only`
+    establish for every history). -/
+example : (run {} [.reg 5, .arrive 5 69 (some 10) 0 1, .regDone 5 0, .arrive 5 69 (some 12) 1000000000 2,
+      .arrive 5 69 (some 11) 2000000000 3, .arrive 5 69 (some 12) 3000000000 4, .reg 5, .cancel 5 0,
+      .arrive 5 69 (some 13) 4000000000 5]).2
+    = [.registered 0 5, .cb 0 5 (some 10) 0 1, .regOk 0, .cb 0 5 (some 12) 1000000000 2, .regErr 1, .cancelled 0,
+       .toDefault 5 5] := by decide
+
 end CoapVerif.Props.C08
 
 section Audit
